@@ -25,19 +25,54 @@ def setup_case(kind, g, b, lib, name, hyp, spec):
     pars = []
     dt = 1.0
     szz0 = dszz = 0.0
+    # planned share of steps with a temperature increment: none / near (1 K) / far (150 K), either sign
+    T0 = g.uniform(293.15, 500.0)
+    dTc = g.choice(["0", "0", "0", "1K", "1K", "1K", "150K", "150K", "150K", "150K"])
+    dT = {"0": 0.0, "1K": g.choice([-1.0, 1.0]), "150K": g.choice([-150.0, 150.0]) if T0 > 443.15 else 150.0}[dTc]
+    T1 = T0 + dT
+    info.update({"T0": T0, "dT": dT, "dT_class": dTc})
+    tdep = spec.get("tdep")
+    if tdep:
+        # elastic properties are formulae of the temperature in the source: the state is built with their value at T0
+        young = tdep["E0"] * (1 + tdep["aE"] * (T0 - 293.15))
+        nu = tdep["nu0"] + tdep["anu"] * (T0 - 293.15)
+        la, mu = gbnp.lame(young, nu)
+        info.update({"young": young, "nu": nu})
+    if kind == "brick_t_elasticity":
+        theta = g.choice([0.5, 1.0])
+        for k, v in (("theta", theta), ("epsilon", eps)):
+            if gbnp.set_parameter(lib, name, k, v) != 1:
+                raise RuntimeError("setParameter %s failed for %s" % (k, name))
+        s0 = M.rand_stress(g, n, 10 ** g.uniform(6.0, 8.5), hyp)
+        eel0 = hooke_inv(young, nu, s0)
+        de = M.rand_increment(g, n, hyp, -6, -2.7)
+        if hyp == "AxisymmetricalGeneralisedPlaneStress":
+            szz0, dszz = float(s0[1]), g.uniform(-1e6, 1e6)
+        etozz0 = g.uniform(-1e-3, 1e-3)
+        eto0 = rand_dir(g, n) * 10 ** g.uniform(-5, -2)
+        if ax is not None:
+            eto0[ax] = 0.0
+        info.update({"theta": theta, "eel0": hexs(eel0), "etozz0": etozz0, "sigzz0": szz0, "dsigzz": dszz})
+        return {"mp": [], "isv0": b.pack_isv(ElasticStrain=eel0, AxialStrain=etozz0), "esv0": b.pack_esv(AxialStress=szz0, Temperature=T0),
+                "esv1": b.pack_esv(AxialStress=szz0 + dszz, Temperature=T1), "eto0": eto0, "de": de, "dt": 1.0, "thf0": s0, "info": info,
+                "noise": 4 * (n + 2) * eps * (abs(la) + 2 * mu), "young": young, "theta": theta}
     if kind == "elasticity":
         e0 = rand_dir(g, n) * 10 ** g.uniform(-6, -2.5)
         de = M.rand_increment(g, n, hyp, -6, -2.5)
         if ax is not None:
             e0[ax] = 0.0
         szz0, dszz = g.uniform(-1e8, 1e8), g.uniform(-1e7, 1e7)
-        return {"mp": b.pack_mp(YoungModulus=young, PoissonRatio=nu), "isv0": [], "esv0": b.pack_esv(AxialStress=szz0),
-                "esv1": b.pack_esv(AxialStress=szz0 + dszz), "eto0": e0, "de": de, "dt": 1.0,
+        return {"mp": b.pack_mp(YoungModulus=young, PoissonRatio=nu), "isv0": [], "esv0": b.pack_esv(AxialStress=szz0, Temperature=T0),
+                "esv1": b.pack_esv(AxialStress=szz0 + dszz, Temperature=T1), "eto0": e0, "de": de, "dt": 1.0,
                 "thf0": np.array([g.uniform(-1e8, 1e8) for _ in range(n)]), "info": info, "noise": 0.0, "young": young}
-    if kind in ("implicit_norton", "norton_creep", "brick_norton"):
-        theta = g.choice([0.5, 1.0, round(g.uniform(0.3, 1.0), 3)])
+    if kind in ("implicit_norton", "norton_creep", "brick_norton", "brick_t_norton"):
+        theta = g.choice([0.5, 1.0, round(g.uniform(0.3, 1.0), 3)]) if not tdep else g.choice([0.5, 1.0])
         fixed = spec.get("fixed") or {}
-        if kind == "brick_norton":
+        if kind == "brick_t_norton":
+            E = tdep["n"]
+            Kn = tdep["K0"] * (1 + tdep["aK"] * (T0 + theta * dT - 293.15))
+            A = 1.0 / Kn ** E
+        elif kind == "brick_norton":
             E = g.choice([3.2, round(g.uniform(1.0, 8.0), 3)])
             Kn = g.uniform(50e6, 300e6)
             A = 1.0 / Kn ** E
@@ -54,10 +89,13 @@ def setup_case(kind, g, b, lib, name, hyp, spec):
         info.update({"A": A, "E": E, "theta": theta, "dt": dt})
         pn = {"implicit_norton": spec.get("pname", "p")}.get(kind, "EquivalentViscoplasticStrain")
         mp = b.pack_mp(YoungModulus=young, PoissonRatio=nu, NortonCoefficient=A, NortonExponent=E)
-    else:  # plasticity, brick_plasticity
-        theta = g.choice([1.0, 1.0, round(g.uniform(0.5, 1.0), 3)])
+    else:  # plasticity, brick_plasticity, brick_t_plasticity
+        theta = g.choice([1.0, 1.0, round(g.uniform(0.5, 1.0), 3)]) if not tdep else g.choice([0.5, 1.0])
         s0y = g.uniform(20e6, 500e6)
         H = g.choice([0.0, g.uniform(0, 0.1) * young])
+        if tdep:
+            s0y = tdep["R0"] * (1 + tdep["aR"] * (T0 - 293.15))
+            H = tdep["H0"] * (1 + tdep["aH"] * (T0 - 293.15))
         pars = [("theta", theta), ("epsilon", eps)] + ([("s0", s0y), ("Hp", H)] if kind == "brick_plasticity" else [])
         s0, eel0, p0, de = M.plast_state(g, b, hyp, young, nu, s0y, H)
         info.update({"s0": s0y, "H": H, "theta": theta})
@@ -79,8 +117,8 @@ def setup_case(kind, g, b, lib, name, hyp, spec):
     # the integrated stress is known up to the convergence threshold of the local solver
     nunk = n + 2
     noise = 4 * nunk * eps * (abs(la) + 2 * mu)
-    return {"mp": mp, "isv0": isv0, "esv0": b.pack_esv(AxialStress=szz0), "esv1": b.pack_esv(AxialStress=szz0 + dszz),
-            "eto0": eto0, "de": de, "dt": dt, "thf0": s0, "info": info, "noise": noise, "young": young, "pname": pn, "p0": p0}
+    return {"mp": mp, "isv0": isv0, "esv0": b.pack_esv(AxialStress=szz0, Temperature=T0), "esv1": b.pack_esv(AxialStress=szz0 + dszz, Temperature=T1),
+            "eto0": eto0, "de": de, "dt": dt, "thf0": s0, "info": info, "noise": noise, "young": young, "pname": pn, "p0": p0, "theta": theta}
 
 
 def mon_tangent(R, s, g, npts):
@@ -144,6 +182,10 @@ def mon_tangent(R, s, g, npts):
             err = float(np.max(np.abs(K[sub] - Jm[sub])))
             tol = 50 * est + 2e-6 * scale + fdnoise
             judged += 1
+            if s.get("tdep"):
+                R.count("%s:judged:dT=%s:theta=%s" % (key, c["info"]["dT_class"], c.get("theta")))
+            else:
+                R.count("%s:judged:dT=%s" % (key, c["info"]["dT_class"]))
             regime = ""
             if "pname" in c:
                 dp = b.isv(o["isv"], c["pname"]) - c["p0"]
